@@ -52,6 +52,25 @@ def gen(binp, seed, n):
         header = rng.random() < 0.3
         simple = {"header": True, "name": "X-M", "def": d} if header else {"def": dict(d, name="matrix", **{"in": "query"})}
         cases.append({"kind": "header" if header else "param", "simple": simple, "typed": [matrix(depth) for _ in range(rng.randint(3, 9))]})
+    # enum members and values that only look like them (same printed form, another kind): whatever a validator remembers about
+    # a value it has accepted must not let a look-alike through
+    alike = [(1, ["1", "1.0", [1]]), (True, ["true", "True", 1]), ([1, 2], ["[1 2]", ["1 2"], [1, "2"], ["1", "2"]]),
+             ("a b", [["a", "b"], "a  b", ["a b"]]), ({"k": 1}, ["map[k:1]", {"k": "1"}, [{"k": 1}]]), (None, ["<nil>", "null"])]
+    for i in range(max(6, n // 10)):
+        picks = rng.sample(alike, rng.randint(1, 4))
+        vals = []
+        for m, fakes in picks:
+            vals += [m, rng.choice(fakes), m, rng.choice(fakes)] if rng.random() < 0.6 else [rng.choice(fakes), m, rng.choice(fakes)]
+        cases.append({"kind": "schema", "schema": {"schema": {"enum": [m for m, _ in picks] + ["zz"]}, "root": ""}, "values": vals})
+    for i in range(max(4, n // 20)):
+        d = {"type": "array", "items": {"type": "string"}, "enum": [["a b"], ["c"]], "name": "e", "in": "query"}
+        tv = lambda l: {"k": "slice", "e": "iface", "l": [{"k": "string", "v": x} for x in l]}
+        seqs = [["a b"], ["a", "b"], ["c"], ["a b"], ["a", "b"], ["c", ""], ["a b "]]
+        rng.shuffle(seqs)
+        cases.append({"kind": "param", "simple": {"def": d}, "typed": [tv(["a b"])] + [tv(x) for x in seqs]})
+        d2 = {"type": "string", "enum": ["1", "true"], "name": "s", "in": "query"}
+        cases.append({"kind": "param", "simple": {"def": d2},
+                      "typed": [{"k": "string", "v": "1"}, {"k": "int64", "v": "1"}, {"k": "string", "v": "true"}, {"k": "bool", "v": "true"}, {"k": "float64", "v": "1"}]})
     for i, c in enumerate(cases):
         c["id"] = i
     return cases
